@@ -2,6 +2,7 @@ package props
 
 import (
 	"fmt"
+	banktypes "github.com/cosmos/cosmos-sdk/x/bank/types"
 	"strings"
 	"time"
 
@@ -60,6 +61,10 @@ type Env struct {
 	cur    *RecBlock
 
 	nImports int
+	// GovRollbackPct: share of single-message governance proposals that get a failing second message
+	GovRollbackPct int
+	// GovExecBlockTxs: delivered (once) in the block whose EndBlock executes the next proposal
+	GovExecBlockTxs []*TxPlan
 	// ExtraAddrs: addresses beyond the lab accounts that hold custom-module state (receivers of
 	// streams, whitelist entries) - the list checks enumerate them as well
 	ExtraAddrs []sdk.AccAddress
@@ -73,7 +78,7 @@ type RecBlock struct {
 func NewEnv(c *fw.Ctx, o lab.Options) *Env {
 	o.Home = c.Scratch + "/home"
 	l := lab.New(dbm.NewMemDB(), o)
-	return &Env{C: c, L: l, R: c.Rng}
+	return &Env{C: c, L: l, R: c.Rng, GovRollbackPct: 15}
 }
 
 func (e *Env) tracef(format string, a ...interface{}) {
@@ -257,6 +262,14 @@ func (e *Env) GovAlong(desc string, along []*TxPlan, msgs ...sdk.Msg) bool {
 		return false
 	}
 	a0 := e.L.Accts[0]
+	if e.GovRollbackPct > 0 && len(msgs) == 1 && e.R.Chance(e.GovRollbackPct) {
+		// all or none also holds inside one proposal: a later message that fails makes x/gov discard
+		// the whole branch - the proposal ends FAILED and nothing of the first message may remain,
+		// neither in the store nor in what the modules do afterwards
+		msgs = append(msgs, banktypes.NewMsgSend(lab.ModAddr("gov"), a0.Addr, sdk.NewCoins(sdk.NewCoin(lab.Denom, math.NewIntWithDecimal(1, 40)))))
+		desc += " + failing message (rolled back)"
+		e.C.Count("gov_proposals_rolled_back", 1)
+	}
 	e.BeginBlock(time.Second)
 	for _, t := range along {
 		e.Deliver(t)
@@ -279,6 +292,11 @@ func (e *Env) GovAlong(desc string, along []*TxPlan, msgs ...sdk.Msg) bool {
 	e.Deliver(&TxPlan{Spec: lab.TxSpec{Msgs: []sdk.Msg{newVote(a0.Addr, pid)}, Signers: []lab.Acct{a0}, Gas: 1_000_000}, Desc: "gov-vote"})
 	e.EndBlock()
 	e.BeginBlock(11 * time.Second)
+	// transactions delivered in the very block whose EndBlock executes the proposal
+	for _, t := range e.GovExecBlockTxs {
+		e.Deliver(t)
+	}
+	e.GovExecBlockTxs = nil
 	e.EndBlock()
 	if e.Halted != "" {
 		return false
